@@ -509,3 +509,52 @@ func init() {
 		assumptions: append([]string{"ideal checksum: equality of two CRC values is taken to hold exactly when the byte sequences fed are equal (true for CRC-32 for every burst up to 32 bits; probability 1-2^-32 otherwise)", "the stored chunk CRC is non-zero (zero means 'not available' and switches validation off by specification)"}, commonAssumptions...),
 	}
 }
+
+func init() {
+	checkTable["C20"] = &checkSpec{
+		needEnd: true,
+		jobs: func(tier string) []*Job {
+			var js []*Job
+			slots := func(n, per, ord int) {
+				js = append(js, &Job{Module: "mcap", Harness: "VC20Slots", Params: P("n", n, "per", per, "ord", ord), TimeoutS: 2400})
+			}
+			lexer := func(tpl, cs, validate int) {
+				js = append(js, &Job{Module: "mcap", Harness: "VC20Lexer", Params: P("tpl", tpl, "cs", cs, "validate", validate), TimeoutS: 600})
+			}
+			att := func(size, lim, cfg, crc int) {
+				js = append(js, &Job{Module: "mcap", Harness: "VC20Attachment", Params: P("size", size, "lim", lim, "cfg", cfg, "crc", crc), TimeoutS: 900})
+			}
+			for ord := 0; ord <= 2; ord++ {
+				slots(3, 1, ord)
+				slots(4, 2, ord)
+				slots(4, 1, ord)
+				if tier == "thorough" {
+					slots(5, 2, ord)
+					slots(5, 1, ord)
+					slots(6, 2, ord)
+					slots(6, 3, ord)
+				}
+			}
+			for _, tpl := range []int{5, 6} {
+				for _, cs := range []int{1, 60, 1000} {
+					lexer(tpl, cs, 1)
+					lexer(tpl, cs, 0)
+				}
+			}
+			att(70000, 33000, 2, 1)
+			att(33000, 32900, 3, 0)
+			if tier == "thorough" {
+				att(200000, 33000, 3, 1)
+				att(100000, 33000, 2, 0)
+				att(1, 32800, 2, 1)
+			}
+			return js
+		},
+		bounds: map[string]any{
+			"quick":    map[string]any{"index_based": "files of 3 messages/3 chunks, 4 messages/3 chunks, 4 messages/4 chunks; every log time symbolic (64 bit): every overlap/nesting/backwards arrangement of the chunk time ranges; the bound (overlap depth, computed from the symbolic chunk ranges; 1 in file order) is asserted after every NextInto, in all three orders", "sequential": "T5/T6 at three chunk sizes: single chunk buffer, replaced only by a larger one, <= 2x largest chunk, none when not validating", "attachments": "70000 and 33000 data bytes (symbolic content) through WriteAttachment and the lexer callback with a ceiling of 33000/32900 bytes on any single library allocation (io.Copy's fixed 32 KiB buffer is the largest)"},
+			"thorough": map[string]any{"index_based": "up to 6 messages / 5 chunks", "attachments": "up to 200000 bytes"},
+		},
+		outside:     append([]string{"more than 6 chunks (the property mentions 1000 chunks and overlap depth 8: far outside)", "attachment sizes are enumerated, not symbolic", "process-level memory (RSS); zstd/lz4 decoder buffers"}, outsideCommon...),
+		assumptions: commonAssumptions,
+	}
+}
